@@ -57,7 +57,14 @@ func DeclStr(p *Prog) string {
 		s = append(s, x)
 	}
 	for _, a := range p.Args {
-		s = append(s, a.Name)
+		x := a.Name
+		if a.Int {
+			x += ":int"
+		}
+		if a.EnvSet {
+			x += ":env"
+		}
+		s = append(s, x)
 	}
 	return strings.Join(s, ",")
 }
